@@ -24,7 +24,17 @@ Classification rule (principled; anything else -> fail closed with the node prin
   CSSeed     : <cs-root>.seed(x) with x gen/val  (ConfigSpace reseeded from the seeded stream)
   Ext        : draw from another component's private generator (model_sdv.sample) - not known to be seeded
   Pass       : random_state=/seed=/rng= keyword with a gen/val value handed to a component (estimator, sampler, copy, dict of kwargs)
-  PassFresh  : the same keyword with None
+  PassFresh  : the same keyword with None - or OMITTED where it is owed (hand-over obligation, below)
+
+Hand-over obligations.  Every function / method / class of the anchors that takes a parameter named random_state / rng / seed
+(table `defs`: Optimizer, Optimizer.copy, Space.rvs, gaussian_mes, Search.__init__, the MoScalarFunction classes, ...) OWES its callers
+that parameter: a call inside the anchors that resolves to one of them -  Name(...), module.Name(...), self.m(...), super().__init__(...),
+<optimizer-valued expression>.copy(...), <x>.m(...) for a method name that only such methods carry, delayed(f)(...) - must supply it
+(keyword, or the positional slot of the definition) with a gen/val value: Pass.  A call that omits it, or passes None, lets the callee
+fall back to check_random_state(None) = numpy's GLOBAL generator: PassFresh.  **kwargs is accepted only for self._opt_kwargs (whose
+dict(...) literal is itself a listed Pass site); any other shape fails closed.
+  optimizer-valued := self inside a class that defines copy(random_state) | a call of such a class | <optimizer-valued>.copy(...) |
+                      a local all of whose assignments are optimizer-valued | an attribute an anchor assigns an optimizer-valued expression to
 """
 import ast
 import os
@@ -49,6 +59,7 @@ CTOR_NAMES = {
     "sklearn.utils.check_random_state", "sklearn.utils.validation.check_random_state",
 }
 SEED_KW = {"random_state", "seed", "rng"}
+GENERIC_METHODS = {"copy", "__init__", "fit", "get", "update", "run"}   # names that also belong to dicts / arrays / estimators: resolved through the receiver only
 GEN_PARAMS = {"random_state", "rng", "seed"}
 ENV_CALLS = {
     "hash": "Hash", "id": "Id",
@@ -107,8 +118,9 @@ def set_returning_methods():
 
 
 class FileWalk:
-    def __init__(self, rel, src, rng_attrs, set_methods):
+    def __init__(self, rel, src, rng_attrs, set_methods, defs=None, opt_attrs=None):
         self.rel, self.rng_attrs, self.set_methods = rel, rng_attrs, set_methods
+        self.defs, self.opt_attrs = defs or {"func": {}, "cls": {}, "meth": {}, "bases": {}}, opt_attrs or set()
         self.tree = ast.parse(src, filename=rel)
         self.parent = {}
         for n in ast.walk(self.tree):
@@ -288,6 +300,94 @@ class FileWalk:
             return self.kind(e.operand, fn, depth + 1)
         return None
 
+    # ---------- hand-over obligations ----------
+    def enclosing_class(self, node):
+        n = node
+        while n in self.parent:
+            n = self.parent[n]
+            if isinstance(n, ast.ClassDef):
+                return n.name
+        return None
+
+    def class_defines(self, cls, meth, seen=()):
+        """Definition record of method `meth` of anchor class `cls` or of its anchor bases (only methods that take a random state)."""
+        if cls is None or cls in seen:
+            return None
+        r = self.defs["meth"].get((cls, meth))
+        if r is not None:
+            return r
+        for b in self.defs["bases"].get(cls, ()):
+            r = self.class_defines(b, meth, seen + (cls,))
+            if r is not None:
+                return r
+        return None
+
+    def optimizer_valued(self, e, fn, depth=0):
+        if depth > 4 or e is None:
+            return False
+        if isinstance(e, ast.Name):
+            if e.id == "self":
+                return self.class_defines(self.enclosing_class(e), "copy") is not None
+            if fn is not None and e.id not in self.params_of(fn):
+                vals = self.local_assignments(fn, e.id)
+                return bool(vals) and all(isinstance(v, ast.AST) and self.optimizer_valued(v, fn, depth + 1) for v in vals)
+            return False
+        if isinstance(e, ast.Attribute):
+            return isinstance(e.value, ast.Name) and e.value.id == "self" and e.attr in self.opt_attrs
+        if isinstance(e, ast.Call):
+            d = dotted(e.func)
+            last = d.split(".")[-1]
+            if last in self.defs["cls"] and ("copy" in {m for (c0, m) in self.defs["meth"] if c0 == last}):
+                return True
+            if isinstance(e.func, ast.Attribute) and last == "copy":
+                return self.optimizer_valued(e.func.value, fn, depth + 1)
+        return False
+
+    def shadowed(self, name, fn):
+        return fn is not None and (name in self.params_of(fn) or bool(self.local_assignments(fn, name)))
+
+    def resolve_obligation(self, c, fn):
+        """-> {'pos': positional slot of the random-state parameter or None, 'what': str}  if the call resolves to a definition of the anchors
+        that takes random_state / rng / seed; None otherwise."""
+        f = c.func
+        if isinstance(f, ast.Call) and dotted(f.func).split(".")[-1] == "delayed" and len(f.args) == 1 and isinstance(f.args[0], ast.Name):
+            return self.defs["func"].get(f.args[0].id)          # delayed(g)(...)
+        if isinstance(f, ast.Subscript):                         # table of classes: moo_functions[name](...)
+            if dotted(f.value).split(".")[-1] in self.defs.get("class_tables", ()):
+                return {"pos": None, "what": dotted(f.value)}
+            return None
+        if isinstance(f, ast.Name):
+            if self.shadowed(f.id, fn):
+                return None
+            return self.defs["cls"].get(f.id) or self.defs["func"].get(f.id)
+        if isinstance(f, ast.Attribute):
+            recv, m = f.value, f.attr
+            if isinstance(recv, ast.Call) and dotted(recv.func) == "super":
+                cls = self.enclosing_class(c)
+                for b in self.defs["bases"].get(cls, ()):
+                    r = self.class_defines(b, m)
+                    if r is not None:
+                        return r
+                    if m == "__init__" and b in self.defs["cls"]:
+                        return self.defs["cls"][b]
+                return None
+            if isinstance(recv, ast.Name) and recv.id == "self":
+                return self.class_defines(self.enclosing_class(c), m)
+            root = dotted(recv).split(".")[0]
+            if root in self.alias and not self.shadowed(root, fn):   # module.Class(...) / module.function(...)
+                if m in self.defs["cls"] or m in self.defs["func"]:
+                    return self.defs["cls"].get(m) or self.defs["func"].get(m)
+            if m in GENERIC_METHODS:
+                if m == "copy" and self.optimizer_valued(recv, fn):
+                    for (c0, m0), r in self.defs["meth"].items():
+                        if m0 == "copy":
+                            return r
+                return None
+            cands = [r for (c0, m0), r in self.defs["meth"].items() if m0 == m]
+            if cands and m not in RNG_METHODS:
+                return cands[0]
+        return None
+
     # ---------- rng sites ----------
     def classify_call(self, c):
         """-> classification or None (not an rng site).  Raises Closed on an rng-looking call it cannot classify."""
@@ -348,15 +448,32 @@ class FileWalk:
                     return None
                 raise Closed("random method on a receiver of unknown origin")
             raise Closed("random method on a receiver of unknown origin")
-        if seedkw:
-            vs = list(seedkw.values())
+        # ---- hand-over obligations: does the call resolve to a definition of the anchors that takes random_state / rng / seed ?
+        target = self.resolve_obligation(c, fn)
+        supplied = list(seedkw.values())
+        if target is not None and not seedkw:
+            args = c.args
+            if any(isinstance(a, ast.Starred) for a in args):
+                raise Closed("*args in a call that owes a random state")
+            pos = target["pos"]
+            if pos is not None and pos < len(args):
+                supplied = [self.kind(args[pos], fn)]
+            else:
+                stars = [k.value for k in c.keywords if k.arg is None]
+                if stars:
+                    if all(dotted(x) == "self._opt_kwargs" for x in stars) and self.defs.get("opt_kwargs_has_random_state"):
+                        return "Pass"
+                    raise Closed("**kwargs in a call that owes a random state")
+                return "PassFresh"   # omitted: the callee falls back to the global generator
+        if supplied:
+            vs = supplied
             if all(v in ("gen", "val") for v in vs):
                 return "Pass"
             if all(v == "none" for v in vs):
                 return "PassFresh"
             if any(v in ("global", "env") for v in vs):
                 return "PassFresh"
-            raise Closed("random_state=/seed= keyword with a value of unknown origin")
+            raise Closed("random_state=/seed= handed over with a value of unknown origin")
         if not is_method and last in ("check_random_state", "RandomState", "default_rng"):
             raise Closed("generator constructor reached through an unresolved name")
         return None
@@ -497,6 +614,69 @@ def find_rng_attrs(trees):
     return attrs
 
 
+def collect_defs(trees):
+    """Definitions of the anchors that take a random state: module functions, classes (through __init__), methods; class bases; the
+    attributes that hold an optimizer; module-level dicts of such classes (moo_functions)."""
+    defs = {"func": {}, "cls": {}, "meth": {}, "bases": {}, "class_tables": set()}
+
+    def slot(fn, is_method):
+        names = [a.arg for a in fn.args.posonlyargs + fn.args.args]
+        if is_method and names:
+            names = names[1:]
+        for i, n in enumerate(names):
+            if n in GEN_PARAMS:
+                return i
+        return None if not any(a.arg in GEN_PARAMS for a in fn.args.kwonlyargs) else -1
+
+    for rel, tree, alias in trees:
+        for n in tree.body:
+            if isinstance(n, (ast.FunctionDef, ast.AsyncFunctionDef)):
+                p = slot(n, False)
+                if p is not None:
+                    defs["func"][n.name] = {"pos": p if p >= 0 else None, "what": "%s:%s" % (rel, n.name)}
+            elif isinstance(n, ast.ClassDef):
+                defs["bases"][n.name] = [dotted(b).split(".")[-1] for b in n.bases]
+                for m in n.body:
+                    if isinstance(m, (ast.FunctionDef, ast.AsyncFunctionDef)):
+                        p = slot(m, True)
+                        if p is not None:
+                            rec = {"pos": p if p >= 0 else None, "what": "%s:%s.%s" % (rel, n.name, m.name)}
+                            defs["meth"][(n.name, m.name)] = rec
+                            if m.name == "__init__":
+                                defs["cls"][n.name] = rec
+    # classes that inherit an __init__ taking a random state
+    changed = True
+    while changed:
+        changed = False
+        for c0, bases in defs["bases"].items():
+            if c0 not in defs["cls"]:
+                for b in bases:
+                    if b in defs["cls"]:
+                        defs["cls"][c0] = defs["cls"][b]
+                        changed = True
+                        break
+    # module-level dict literals whose values are such classes
+    for rel, tree, alias in trees:
+        for n in tree.body:
+            if isinstance(n, ast.Assign) and len(n.targets) == 1 and isinstance(n.targets[0], ast.Name) and isinstance(n.value, ast.Dict):
+                vals = [dotted(v) for v in n.value.values]
+                if vals and all(v in defs["cls"] for v in vals):
+                    defs["class_tables"].add(n.targets[0].id)
+    return defs
+
+
+def find_opt_attrs(trees, defs):
+    """self.<attr> = <Optimizer(...)> / <...>.Optimizer(...) anywhere in the anchors."""
+    opt_classes = {c0 for (c0, m) in defs["meth"] if m == "copy"}
+    out = set()
+    for rel, tree, alias in trees:
+        for n in ast.walk(tree):
+            if isinstance(n, ast.Assign) and len(n.targets) == 1 and isinstance(n.targets[0], ast.Attribute) and isinstance(n.targets[0].value, ast.Name) and n.targets[0].value.id == "self":
+                if isinstance(n.value, ast.Call) and dotted(n.value.func).split(".")[-1] in opt_classes:
+                    out.add(n.targets[0].attr)
+    return out
+
+
 def analyse(repo):
     """-> dict(ok, reason, rng_sites, env_sites, rng_attrs, cbo_opt_kwargs, sample_max_size_default)"""
     base = os.path.join(repo, "src", "deephyper")
@@ -517,14 +697,20 @@ def analyse(repo):
             pre.append((rel, fw.tree, fw.alias))
         attrs = find_rng_attrs(pre)
         out["rng_attrs"] = attrs
+        defs = collect_defs(pre)
+        opt_attrs = find_opt_attrs(pre, defs)
+        ex = extra_facts(base)
+        defs["opt_kwargs_has_random_state"] = "random_state" in ex["cbo_opt_kwargs"]
+        out["obligation_defs"] = sorted([r["what"] for r in defs["func"].values()] + [r["what"] for r in defs["meth"].values()]) + ["table:" + t for t in sorted(defs["class_tables"])]
+        out["optimizer_attrs"] = sorted(opt_attrs)
         for rel, src in srcs:
-            fw = FileWalk(rel, src, set(attrs), setm)
+            fw = FileWalk(rel, src, set(attrs), setm, defs, opt_attrs)
             fw.walk()
             out["rng_sites"] += fw.rng_sites
             out["env_sites"] += fw.env_sites
         out["rng_sites"].sort(key=lambda s: (ANCHORS.index(s["file"]), s["line"], s["callee"]))
         out["env_sites"].sort(key=lambda s: (ANCHORS.index(s["file"]), s["line"], s["callee"]))
-        out["extra"] = extra_facts(base)
+        out["extra"] = ex
         out["set_methods"] = sorted(setm)
     except Closed as e:
         out["ok"], out["reason"] = False, str(e)
@@ -581,6 +767,7 @@ if __name__ == "__main__":
     r = analyse(sys.argv[1] if len(sys.argv) > 1 else "/repo")
     print("ok", r["ok"], r["reason"])
     print("rng_attrs", r["rng_attrs"])
+    print("obligation defs", r.get("obligation_defs"), r.get("optimizer_attrs"))
     for s in r["rng_sites"]:
         print("%-30s %4d %-34s %-44s %-10s %s" % (s["file"], s["line"], s["func"], s["callee"], s["cls"], s["guard"][:60]))
     print()
